@@ -835,6 +835,11 @@ struct SlowSignedGet<CR> {
     key: std::sync::Arc<Key>,
     skew: i64,
     stall_ms: u64,
+    /// Cancel safety of the stub itself: the request is taken in once, the
+    /// answer is due at a fixed moment and built once, however often the
+    /// caller drops the future and asks again.
+    taken: Option<(Message<Vec<u8>>, Option<ServerTransaction<std::sync::Arc<Key>>>, tokio::time::Instant)>,
+    response: Option<Message<bytes::Bytes>>,
 }
 
 impl<CR> std::fmt::Debug for SlowSignedGet<CR> {
@@ -843,9 +848,9 @@ impl<CR> std::fmt::Debug for SlowSignedGet<CR> {
     }
 }
 
-struct SyncFut<T>(Pin<Box<dyn Future<Output = T> + Send>>);
-unsafe impl<T> Sync for SyncFut<T> {}
-impl<T> Future for SyncFut<T> {
+struct SyncFut<'a, T>(Pin<Box<dyn Future<Output = T> + Send + 'a>>);
+unsafe impl<T> Sync for SyncFut<'_, T> {}
+impl<T> Future for SyncFut<'_, T> {
     type Output = T;
     fn poll(mut self: Pin<&mut Self>, cx: &mut std::task::Context<'_>) -> std::task::Poll<T> {
         self.0.as_mut().poll(cx)
@@ -854,34 +859,43 @@ impl<T> Future for SyncFut<T> {
 
 impl<CR: domain::net::client::request::ComposeRequest + Send + Sync + 'static> domain::net::client::request::SendRequest<CR> for SlowSignedUpstream {
     fn send_request(&self, req: CR) -> Box<dyn domain::net::client::request::GetResponse + Send + Sync> {
-        Box::new(SlowSignedGet { req, key: self.key.clone(), skew: self.skew, stall_ms: self.stall_ms })
+        Box::new(SlowSignedGet { req, key: self.key.clone(), skew: self.skew, stall_ms: self.stall_ms, taken: None, response: None })
     }
 }
 
 impl<CR: domain::net::client::request::ComposeRequest + Send + Sync> domain::net::client::request::GetResponse for SlowSignedGet<CR> {
     fn get_response(&mut self) -> Pin<Box<dyn Future<Output = Result<Message<bytes::Bytes>, domain::net::client::request::Error>> + Send + Sync + '_>> {
-        let (key, skew, stall_ms) = (self.key.clone(), self.skew, self.stall_ms);
-        let composed = self.req.to_message();
         Box::pin(SyncFut(Box::pin(async move {
-            let mut req = composed.expect("request composes");
-            let now = t48((sim::wall_secs() as i64 + skew) as u64);
-            let tsig = match ServerTransaction::request(&key, &mut req, now) {
-                Ok(Some(t)) => t,
-                other => {
-                    sim::violation(P, "completeness", "client-transport-request-rejected".to_string(), format!("the honest server could not verify the transport's request: {:?}", other.map(|o| o.is_some()).map_err(|e| format!("{:?}", e.error()))));
-                    return Err(domain::net::client::request::Error::StreamReadError(std::sync::Arc::new(std::io::Error::other("request rejected"))));
-                }
-            };
-            // The request is in; the answer takes its time.
-            if stall_ms > 0 {
-                tokio::time::sleep(Duration::from_millis(stall_ms)).await;
+            if let Some(r) = &self.response {
+                return Ok(r.clone());
+            }
+            if self.taken.is_none() {
+                let mut req = self.req.to_message().expect("request composes");
+                let now = t48((sim::wall_secs() as i64 + self.skew) as u64);
+                let tsig = match ServerTransaction::request(&self.key, &mut req, now) {
+                    Ok(Some(t)) => t,
+                    other => {
+                        sim::violation(P, "completeness", "client-transport-request-rejected".to_string(), format!("the honest server could not verify the transport's request: {:?}", other.map(|o| o.is_some()).map_err(|e| format!("{:?}", e.error()))));
+                        return Err(domain::net::client::request::Error::StreamReadError(std::sync::Arc::new(std::io::Error::other("request rejected"))));
+                    }
+                };
+                // The request is in; the answer takes its time.
+                self.taken = Some((req, Some(tsig), tokio::time::Instant::now() + Duration::from_millis(self.stall_ms)));
+            }
+            let due = self.taken.as_ref().map(|t| t.2).expect("taken");
+            if self.stall_ms > 0 {
+                tokio::time::sleep_until(due).await;
                 sim::sync_clock();
             }
-            let now = t48((sim::wall_secs() as i64 + skew) as u64);
-            let builder = MessageBuilder::new_bytes().start_answer(&req, domain::base::iana::Rcode::NOERROR).expect("start_answer");
+            let (req, tsig, _) = self.taken.as_mut().expect("taken");
+            let tsig = tsig.take().expect("answered once");
+            let now = t48((sim::wall_secs() as i64 + self.skew) as u64);
+            let builder = MessageBuilder::new_bytes().start_answer(req, domain::base::iana::Rcode::NOERROR).expect("start_answer");
             let mut builder = builder.additional();
             tsig.answer(&mut builder, now).expect("sign");
-            Ok(builder.into_message())
+            let m = builder.into_message();
+            self.response = Some(m.clone());
+            Ok(m)
         })))
     }
 }
@@ -906,7 +920,25 @@ async fn client_transport(w: &World) {
         let msg = build_msg(100 + i as u16, "ct.example.", 0, 0, false).into_message();
         let req = RequestMessage::new(msg).expect("request");
         let mut g = conn.send_request(req);
-        let res = g.get_response().await;
+        // `get_response` is documented as cancel safe: a caller may drop the
+        // pending future (a timeout around it, a select! loop) and ask again.
+        let mut cancels = if sim::chance("ct.cancel", 1, 3) { 1 + sim::draw("ct.n_cancels", 2) } else { 0 };
+        let res = loop {
+            if cancels > 0 && stall_ms > 0 {
+                cancels -= 1;
+                let after = 1 + sim::draw("ct.cancel_after_ms", stall_ms.min(3_000));
+                match tokio::time::timeout(Duration::from_millis(after), g.get_response()).await {
+                    Ok(r) => break r,
+                    Err(_) => {
+                        sim::sync_clock();
+                        sim::stat("fault.get_response_dropped_and_reissued");
+                        ev!("client transport: pending get_response() dropped after {} ms, asking again", after);
+                        continue;
+                    }
+                }
+            }
+            break g.get_response().await;
+        };
         sim::sync_clock();
         ev!("client transport: skew {} s, stall {} ms -> {}", skew, stall_ms, match &res { Ok(_) => "Ok".to_string(), Err(e) => format!("{:?}", e) });
         // With both clocks read when the response is there, the response's
@@ -919,7 +951,7 @@ async fn client_transport(w: &World) {
                 }
             }
             (Err(e), true) => {
-                sim::violation(P, "completeness", format!("client-transport-rejects-honest-response/{}", format!("{:?}", e).split(['(', ' ', ')']).nth(1).unwrap_or("?")), format!("honest server, clock {} s off (fudge 300), answer after {} ms: {:?}", skew, stall_ms, e));
+                sim::violation(P, "completeness", format!("client-transport-rejects-honest-response/{}", { let t = format!("{:?}", e); let mut p = t.split(|c: char| !c.is_alphanumeric()).filter(|x| !x.is_empty()); let a = p.next().unwrap_or("?").to_string(); if a == "Authentication" { p.next().unwrap_or("?").to_string() } else { a } }), format!("honest server, clock {} s off (fudge 300), answer after {} ms: {:?}", skew, stall_ms, e));
                 return;
             }
             (Ok(_), false) => {
@@ -1284,6 +1316,12 @@ fn server_error_path(w: &World, tran: &ClientTransaction<&Key>, req: &Message<Ve
 /// client and the model both verify.
 fn lib_sequence(w: &World) {
     sim::stat("counter.lib_sequences");
+    let (late_from, late_by): (u64, u64) = if sim::chance("seq.clock_step", 1, 5) {
+        sim::stat("fault.clock_step_inside_sequence");
+        (1 + sim::draw("seq.clock_step_at", 4), *sim::pick("seq.clock_step_s", &[301u64, 4000, 299, 86_400 * 366]))
+    } else {
+        (u64::MAX, 0)
+    };
     let id = sim::draw("msg.id", 65536) as u16;
     let mut req = build_msg(id, "zone.example.", 0, 0, false);
     let now_c = w.now_c(0);
@@ -1376,7 +1414,10 @@ fn lib_sequence(w: &World) {
         };
         sim::stat(mutation_stat(&m));
         let delivered = mutate(&signed, &m);
-        let t_c = w.now_c(i);
+        // The receiver's clock may step while the sequence is under way (or
+        // a message may be held up in transit): every signed message's time
+        // is judged against the clock at the moment it is verified.
+        let t_c = w.now_c(i + if i >= late_from { late_by } else { 0 });
         let prefix = if i == 0 { Prefix::RequestMac(&prior_rcvd) } else { Prefix::Running(&prior_rcvd, &[]) };
         let verdict = model_verify(&w.mk, &delivered, prefix, t_c);
         let mut dm = match Message::from_octets(delivered.clone()) {
